@@ -71,3 +71,42 @@ def whole_content_hashed(ctx, rule):
                        'blocks are filled with read_exact: a final block shorter than the buffer is an error / is lost, so the tail of the file is not compared')
     ctx.count('tail_dropping_apis_in_persist_if_changed', m)
     ctx.floor(rule, 'hashing functions in persist_if_changed', n, 0 if m else 1)
+
+
+def writer_replaces_the_whole_file(ctx, rid, lead=''):
+    """shared by C01 (the emitted crate is exactly what the generator produced) and C10 (same input, same bytes)"""
+    from ..facts import callee, op_place
+    from ..flow import Defs, backward_slice, slice_calls
+    ctx.rule(rid, lead + 'P7 provenance of the file handle: in the crate that writes every generated file (persist_if_changed), each `write_all` goes to a handle '
+             'that REPLACES the file: `fs::write`, `File::create`, or an `OpenOptions` chain whose `truncate(..)` is the constant `true` (and no '
+             '`append(true)`), or the body calls `set_len` after the write. A handle opened without truncation leaves the tail of a longer previous '
+             'generation behind: the second, shorter, `lib.rs` / `Cargo.toml` no longer parses although pavexc exits 0.')
+    n = 0
+    for b in ctx.fb.bodies('persist_if_changed'):
+        if b.is_promoted:
+            continue
+        defs = None
+        set_len = any((callee(t) or '').endswith('::set_len') for _, t in b.calls())
+        for bb, t in b.calls():
+            c = callee(t) or ''
+            if not (c.endswith('Write>::write_all') or c.endswith('Write>::write') or c.endswith('::write_all')):
+                continue
+            if 'File' not in ' '.join(t.get('aty', [])[:1]) and 'File' not in c:
+                continue
+            n += 1
+            defs = defs or Defs(b)
+            pl = op_place(t['args'][0])
+            sl, _ = backward_slice(b, pl['l'], defs) if pl is not None else ([], None)
+            calls = list(slice_calls(sl))
+            names = [(x or '').split('::')[-1].split('<')[0] for x, _, _ in calls]
+            trunc = [node for x, _, node in calls if (x or '').endswith('OpenOptions::truncate')]
+            app = [node for x, _, node in calls if (x or '').endswith('OpenOptions::append')]
+            def const_true(node):
+                a = node['args'][1] if len(node['args']) > 1 else {}
+                return a.get('int') in (1, '1', True)
+            ok = ('create' in names and 'open' not in names) or (bool(trunc) and all(const_true(x) for x in trunc)) or set_len
+            ok = ok and not any(const_true(x) for x in app)
+            ctx.ob(rid, 'handle-replaces-the-file|%s' % b.nid.replace('persist_if_changed::', ''), ok, b.loc(bb, t),
+                   'the handle written to is opened through %s; truncate arguments: %s; set_len in the body: %s' % (
+                       sorted(set(names)), [x['args'][1] for x in trunc if len(x['args']) > 1], set_len))
+    ctx.floor(rid, 'write_all sites on files in persist_if_changed', n, 1)
